@@ -149,6 +149,11 @@ def _one(chk, fi, fname, ex, rules):
             err = "%s opened for the formatters but not closed (state %s)" % (f["entity"], f["fmt"][0])
         if not err and f["show_skipped"] is False and selected is False and f["fmt"][0] != "start":
             err = "events for a %s that is not shown" % f["entity"]
+        if not err and f["fmt"][0] == "C" and f.get("background", "").startswith("background") and not f.get("bg_announced"):
+            err = "the %s has a %s, the %s is shown to the formatters, but its background is not: the report lacks an element the model has" % (
+                f["entity"], f["background"], f["entity"])
+        if not err and f.get("bg_announced") and f.get("background") == "none":
+            err = "a background is announced for a %s that has none" % f["entity"]
         if err:
             chk.fail(_f("F3", fi, fname, ex, err, "formatter protocol: " + err))
         else:
